@@ -77,10 +77,24 @@ def run_vh(cmd, inp, timeout=600, tag='job'):
     json.dump(inp, open(ip, 'w'))
     if os.path.exists(op):
         os.remove(op)
+    mk = os.path.join(d, '%s-%d-marker.txt' % (tag, os.getpid()))
+    if os.path.exists(mk):
+        os.remove(mk)
     try:
-        p = subprocess.run([vh, cmd, ip, op], capture_output=True, text=True, timeout=timeout, env=GOENV)
+        p = subprocess.run([vh, cmd, ip, op], capture_output=True, text=True, timeout=timeout, env=dict(GOENV, VH_MARKER=mk))
     except subprocess.TimeoutExpired:
         raise Inconclusive('harness command %s timed out after %ds' % (cmd, timeout))
+    if not os.path.exists(op) and os.path.exists(mk) and re.search(r'^(panic:|fatal error:)', p.stderr, re.M):
+        # the code under test crashed the process: that is an observation, attributed to the marked case
+        case = open(mk).read()
+        m = re.search(r'^(panic:.*|fatal error:.*)$', p.stderr, re.M)
+        frames = [l.strip() for l in p.stderr.splitlines() if 'go-orbit-db' in l or 'go-ipfs-log' in l][:6]
+        os.remove(ip)
+        return {'command': cmd, 'behaviours': 0, 'steps': 0, 'comparisons': 0, 'inconclusive': [], 'notes': [], 'samples': [],
+                'stats': {}, 'crashed': True,
+                'violations': [{'property': inp.get('property'), 'kind': 'panic', 'behaviour': 'crash', 'step': -1,
+                                'detail': 'process crashed (%s) while: %s; frames: %s' % (m.group(1)[:200], case, ' | '.join(frames)),
+                                'case': case}]}
     if not os.path.exists(op):
         raise Inconclusive('harness command %s produced no result (exit %d):\n%s\n%s' % (cmd, p.returncode, p.stdout[-2000:], p.stderr[-4000:]))
     res = json.load(open(op))
